@@ -168,6 +168,40 @@ def run(tier, seed, escalate=False):
                         key = "C16:attr-not-si:%s:%s" % (fmt, k)
                         fails.append({"key": key, "clause": key, "ops": [{"format": fmt, "key": k, "mapping": v, "raw": mag, "got": repr(got)}]})
         dist["config_keys"] = mi
+        # ---------------- (c2) mapping strings the shipped configuration does not happen to contain: products of several
+        # header keys with and without a prefixed unit (a user's own configuration file may use any of them); every key
+        # carries a different value, so using one key for all or applying the prefix per factor shows
+        synth = []
+        for nk in (1, 2, 3):
+            for unit in (None, "Hz", "MHz", "ms", "kHz", "us", "GHz", "T", "mT"):
+                for spaced in (False, True):
+                    names = ["hk%d" % i for i in range(nk)]
+                    txt = (" * " if spaced else "*").join(names) + (("" if unit is None else (" , " if spaced else ", ") + unit))
+                    synth.append((names, unit, txt))
+        outs2, _ = run_model([{"op": "load", "q": "mapping", "val": t} for _, _, t in synth])
+        for (names, unit, txt), o in zip(synth, outs2):
+            for trial in range(2):
+                raws = [rng.choice([3.25, 7, 12.5, 300, 4.0e8, 0.5]) * (i + 1) for i in range(len(names))]
+                as_str = trial == 1
+                attrs = {nm: (repr(float(r)) if as_str and float(r) != int(r) else (str(int(r)) if as_str else r)) for nm, r in zip(names, raws)}
+                d = dnp.DNPData(np.zeros(2), ["x"], [np.arange(2.0)], attrs=attrs)
+                n_eval += 1
+                try:
+                    got = L._convert_dnplab_attrs(d, txt)
+                except Exception as e:  # noqa: BLE001
+                    got = None
+                prod = 1.0
+                for r in raws:
+                    prod *= float(r)
+                fac = 1.0 if unit is None or unit in units else 10.0 ** PREFIX.get(unit[0], 0)
+                want_model = prod * 10.0 ** o["exp"] if o.get("keys") == names else None
+                if want_model is None or got is None or abs(float(got) - want_model) > 1e-9 * abs(want_model):
+                    mism.append({"diffs": ["attr:synthetic:%s" % txt], "ops": [{"mapping": txt, "raw": raws}],
+                                 "model": want_model, "impl": repr(got), "stream": -1, "explained_by_known": False})
+                if got is None or abs(float(got) - prod * fac) > 1e-9 * abs(prod * fac):
+                    key = "C16:attr-not-si:product-of-%d:%s" % (len(names), unit)
+                    fails.append({"key": key, "clause": key, "ops": [{"mapping": txt, "raw": raws, "got": repr(got)}]})
+        dist["synthetic_mappings"] = len(synth)
         # ---------------- (d) shipped samples
         base = os.path.join(REPO, "data")
         n_s = 0
